@@ -76,6 +76,21 @@ def harvest_literals(pygam):
 TERM_MIXES = ['s0', 's0+l1', 'l0+l1', 's0+f2', 'te01', 'f2', 's0mono+l1', 's0+s1', 's0by1']
 WEIGHT_KINDS = ['none', 'ones', 'int', 'dyadic', 'f32', 'zeros']
 TAUS = [0.5, 0.1, 0.9, 0.25, 0.75, 0.01, 0.99, 0.3, 0.625]
+# extreme expectiles: the statement is for every tau in (0,1); a floor / cap on the asymmetric weight only shows out here
+EXTREME_TAUS = [1e-6, 2e-4, 5e-4, 0.9995, 0.9998, 1 - 1e-6]
+
+
+def tau_pool(lits):
+    """moderate + extreme + literal-seeded expectiles: every numeric literal x in (0,1) of the functions under test, x/2, 2x and
+    their complements 1 - (.) (a threshold planted in `_W` / `fit_quantile` brings its own test points)"""
+    pool = list(TAUS) + list(EXTREME_TAUS)
+    for x in lits:
+        if 0 < x < 1:
+            for v in (x, x / 2, 2 * x):
+                for t in (v, 1 - v):
+                    if 0 < t < 1 and t not in pool:
+                        pool.append(t)
+    return pool
 
 
 def build_terms(pygam, mix, lam, ns, mult=1.0):
@@ -145,12 +160,13 @@ def gen_data(rs, n, ykind):
 YKINDS = ['normal', 'hetero', 'heavy', 'integer', 'skew']
 
 
-def make_case(seed, stream, idx, tier, force=None):
+def make_case(seed, stream, idx, tier, force=None, taus=None):
+    taus = taus or TAUS
     r = _subrng(seed, stream, idx)
     rs = np.random.RandomState(r.getrandbits(32))
     force = force or {}
     mix = force.get('mix', TERM_MIXES[idx % len(TERM_MIXES)])
-    tau = force.get('tau', TAUS[idx % len(TAUS)] if idx % 5 else round(r.uniform(0.02, 0.98), 3))
+    tau = force.get('tau', taus[idx % len(taus)] if idx % 5 else round(r.uniform(0.02, 0.98), 3))
     wk = force.get('wk', WEIGHT_KINDS[r.randrange(len(WEIGHT_KINDS))])
     n = force.get('n', [20, 40, 80, 150][r.randrange(4)] if tier == 'quick' else [20, 40, 80, 150, 300][r.randrange(5)])
     lam = force.get('lam', [0.05, 0.6, 0.6, 5.0, 40.0][r.randrange(5)])
@@ -204,7 +220,7 @@ def np_balance(tau, w, y, mu):
 # --------------------------------------------------------------------------------------------
 # streams
 # --------------------------------------------------------------------------------------------
-def run_np_balance(ctx):
+def run_np_balance(ctx, lits=()):
     st = 'np.balance'
     ctx.stream(st, 'model asym / balance on exact dyadic rationals (with ties y = mu) vs NumPy (y > mu)*tau + (y <= mu)*(1-tau) (exact)')
     r = ctx.subrng(st)
@@ -212,7 +228,11 @@ def run_np_balance(ctx):
     ops, cases = [], []
     for i in range(ncase):
         n = r.randrange(1, 12)
-        tau = [Fraction(1, 2), Fraction(1, 4), Fraction(7, 8), Fraction(r.randrange(1, 64), 64)][i % 4]
+        tau = [Fraction(1, 2), Fraction(1, 4), Fraction(7, 8), Fraction(r.randrange(1, 64), 64),
+               Fraction(1, 2 ** 20), 1 - Fraction(1, 2 ** 20), Fraction(1, 2 ** 11), 1 - Fraction(1, 2 ** 11)][i % 8]
+        if i % 3 == 2:
+            xs = [t for t in tau_pool(list(lits)) if t not in TAUS]
+            tau = f2q(xs[(i // 3) % len(xs)])          # extreme / literal-seeded, not dyadic: compared to 1e-13
         y = [Fraction(r.randrange(-40, 40), 8) for _ in range(n)]
         mu = [(yy if r.random() < 0.25 else Fraction(r.randrange(-40, 40), 8)) for yy in y]
         w = [Fraction(r.randrange(0, 20), 4) for _ in range(n)]
@@ -231,12 +251,17 @@ def run_np_balance(ctx):
             ctx.disagree(st, sig, 'numpy', 'bad-op', '')
             continue
         got_asym = np.array([float(Fraction(x)) for x in a_line.split()])
-        want_bal = np_balance(t, wa, ya, ma)       # dyadic: exact in doubles
-        if not np.array_equal(got_asym, want_asym) or float(Fraction(b_line)) != want_bal:
+        want_bal = np_balance(t, wa, ya, ma)       # dyadic tau: exact in doubles
+        ctx.count('np.balance tau', 'extreme/literal' if (t < 0.005 or t > 0.995) else 'moderate')
+        if tau.denominator <= 2 ** 20:
+            bal_ok = float(Fraction(b_line)) == want_bal
+        else:
+            bal_ok = abs(float(Fraction(b_line)) - want_bal) <= 1e-13 * (float(np.sum(wa * np.abs(ya - ma))) + 1.0)
+        if not np.array_equal(got_asym, want_asym) or not bal_ok:
             ctx.disagree(st, sig, [want_asym.tolist(), want_bal], [got_asym.tolist(), b_line], 'model asym/balance differs from NumPy')
 
 
-def run_intercept(ctx, pygam, idxs=None):
+def run_intercept(ctx, pygam, idxs=None, lits=()):
     st = 'intercept.fixed-point'
     ctx.stream(st, 'ExpectileGAM(terms=intercept, expectile=tau).fit(X, y, weights=w).coef_ vs exact fixed point of the model PIRLS '
                    'step (interceptFit, ridge 2^-26) (1e-9)')
@@ -248,8 +273,10 @@ def run_intercept(ctx, pygam, idxs=None):
         r = ctx.subrng(st, i)
         rs = np.random.RandomState(r.getrandbits(32))
         n = [1, 2, 3, 5, 8, 13, 30][r.randrange(7)]
-        tau = TAUS[i % len(TAUS)] if i % 4 else round(r.uniform(0.01, 0.99), 4)
-        yk = i % 3
+        pool = tau_pool(list(lits))
+        tau = pool[i % len(pool)] if i % 4 else round(r.uniform(0.01, 0.99), 4)
+        ctx.count('intercept tau', 'extreme/literal' if (tau < 0.005 or tau > 0.995) else 'moderate')
+        yk = (i // 2) % 3
         if yk == 0:
             y = rs.randint(-5, 6, n).astype(float)
         elif yk == 1:
@@ -280,15 +307,18 @@ def run_intercept(ctx, pygam, idxs=None):
         def ev():
             g = pygam.ExpectileGAM(intercept, expectile=tau, tol=1e-13, max_iter=300)
             g.fit(X, y, weights=w)
-            return float(np.asarray(g.coef_)[0])
+            return float(np.asarray(g.coef_)[0]), converged(g, 1e-13)
         try:
-            got = ev()
+            got, conv_impl = ev()
         except Exception as ex:  # noqa
             ctx.count('intercept fit exception', type(ex).__name__)
             continue
+        if not conv_impl:
+            ctx.count('intercept: pyGAM fit not converged (skipped)', 1)
+            continue
         scale = max(1.0, float(np.max(np.abs(y))))
         if abs(got - want) > 1e-8 * scale:
-            got = ev()
+            got, _ = ev()
             wv = w_eff(w, n)
             bal = np_balance(tau, wv, y, np.full(n, got))
             sc = float(np.sum(wv * np.abs(y - got))) + 1.0
@@ -314,7 +344,7 @@ def converged(g, tol=1e-10):
     return len(d) > 0 and d[-1] < tol
 
 
-def run_balance(ctx, pygam, idxs=None):
+def run_balance(ctx, pygam, idxs=None, lits=()):
     st = 'fit.balance'
     ctx.stream(st, 'converged ExpectileGAM fit: tau*sum_{r>0} w r - (1-tau)*sum_{r<=0} w|r| == sqrt(eps)*beta_0 (NumPy and model `balance` '
                    'on the exact observed residuals), 1e-7 of sum w|r|')
@@ -322,11 +352,11 @@ def run_balance(ctx, pygam, idxs=None):
     idxs = range(ncase) if idxs is None else idxs
     evals, ops = [], []
     for i in idxs:
-        c = make_case(ctx.seed, st, i, ctx.tier)
+        c = make_case(ctx.seed, st, i, ctx.tier, taus=tau_pool(list(lits)))
         sig = case_sig(c)
         ctx.count('term mix', c['mix'])
         ctx.count('weight kind', c['wk'])
-        ctx.count('tau', c['tau'] if c['tau'] in TAUS else 'random')
+        ctx.count('tau', c['tau'] if c['tau'] in TAUS else ('extreme/literal' if (c['tau'] < 0.005 or c['tau'] > 0.995) else 'other'))
 
         def ev():
             g = fit_expectile(pygam, c)
@@ -346,10 +376,18 @@ def run_balance(ctx, pygam, idxs=None):
         bal = np_balance(c['tau'], w32, c['y'], mu)
         scale = float(np.sum(w32 * np.abs(c['y'] - mu))) + 1.0
         want = SQRT_EPS * b0
-        if abs(bal - want) > 1e-6 * scale:
+
+        def too_far(bal, mu, w32, b0, margin):
+            # absolute: 1e-7 of sum w|r| (x margin); relative to the larger of the two sides: 1e-5 (x margin) — at extreme expectiles
+            # both sides are tiny compared with sum w|r| (observed on converged fits: <= 4e-8 of the larger side)
+            r = c['y'] - mu
+            side = max(float(c['tau'] * np.sum((w32 * r)[r > 0])), float((1 - c['tau']) * np.sum((w32 * -r)[r <= 0])))
+            d = abs(bal - SQRT_EPS * b0)
+            return d > margin * 1e-7 * scale or d > margin * 1e-5 * side + 1e-9 * scale
+        if too_far(bal, mu, w32, b0, 10):
             g, mu, w32, b0 = ev()
             bal = np_balance(c['tau'], w32, c['y'], mu)
-            if abs(bal - SQRT_EPS * b0) > 1e-6 * scale:
+            if too_far(bal, mu, w32, b0, 10):
                 r = c['y'] - mu
                 ctx.fail(st, sig, case_replay(ctx.seed, c),
                          observed=dict(tau_pos=float(c['tau'] * np.sum((w32 * r)[r > 0])), one_minus_tau_neg=float((1 - c['tau']) * np.sum((w32 * -r)[r <= 0])),
@@ -691,10 +729,10 @@ def _run(ctx):
                        'same definitions at Float for max_iter <= 40 (strict betweenness fails in doubles once min_ and max_ are adjacent)')
     ctx.partial.append('expectile_balance holds with the ridge term A00*beta0 (= 2^-26 * intercept in the code); it is not claimed to vanish')
     ctx.assumptions.append('a fit whose last recorded PIRLS diff is < 1e-10 is treated as a fixed point of the PIRLS map (C01/C20)')
-    run_np_balance(ctx)
+    run_np_balance(ctx, lits)
     run_malformed(ctx, pygam, lits)
-    run_intercept(ctx, pygam)
-    run_balance(ctx, pygam)
+    run_intercept(ctx, pygam, lits=lits)
+    run_balance(ctx, pygam, lits=lits)
     run_half_linear(ctx, pygam)
     run_fit_quantile(ctx, pygam, lits)
 
@@ -712,12 +750,12 @@ def _replay(ctx, rp):
     ctx.seed = case.get('seed', rp.get('seed', ctx.seed))
     ctx.tier = rp.get('tier', ctx.tier)
     if st == 'fit.balance' and 'idx' in case:
-        run_balance(ctx, pygam, idxs=[case['idx']])
+        run_balance(ctx, pygam, idxs=[case['idx']], lits=lits)
     elif st == 'half.linear' and 'idx' in case:
         run_half_linear(ctx, pygam, idxs=[case['idx']])
     elif st == 'fit_quantile.trace' and 'idx' in case:
         run_fit_quantile(ctx, pygam, lits, idxs=[case['idx']])
     elif st == 'intercept.fixed-point' and 'idx' in case:
-        run_intercept(ctx, pygam, idxs=[case['idx']])
+        run_intercept(ctx, pygam, idxs=[case['idx']], lits=lits)
     else:
         _run(ctx)
